@@ -2,14 +2,14 @@
 # tools/seed_verify.sh C07 [name]  -- confirm a sub-agent's seeded change in its scratch worktree
 # (/tmp/seed/<ID>/SEED/{patch.diff,demo.py,notes.md}), run the property's quick check against it,
 # and archive it under /verif/seeded/<name>/ with meta.json. The worktree is left clean.
-ID=$1; NAME=${2:-$ID}; W=/tmp/seed/$ID; S=$W/SEED
+ID=$1; NAME=${2:-$ID}; BASE=${3:-/tmp/seed}; W=$BASE/$ID; S=$W/SEED
 [ -f $S/patch.diff ] || { echo "no patch for $ID"; exit 2; }
 cd $W || exit 2
 git checkout -q -- src && git apply --check $S/patch.diff || { echo "patch does not apply on HEAD"; exit 2; }
 export PYTHONPATH=$W/src
-/venv/bin/python $S/demo.py >/tmp/seed/$ID.demo_orig.log 2>&1; RC_ORIG=$?
+/venv/bin/python $S/demo.py >$BASE/$ID.demo_orig.log 2>&1; RC_ORIG=$?
 git apply $S/patch.diff
-/venv/bin/python $S/demo.py >/tmp/seed/$ID.demo_mut.log 2>&1; RC_MUT=$?
+/venv/bin/python $S/demo.py >$BASE/$ID.demo_mut.log 2>&1; RC_MUT=$?
 TESTS=$(/venv/bin/python -m pytest -q -p no:cacheprovider -n 8 2>&1 | tail -1)
 git checkout -q -- src
 unset PYTHONPATH
